@@ -571,6 +571,26 @@ class C16(HttpProp):
 
 
 # ------------------------------------------------------------------ C06 (in-process part)
+def interleaved_upload_cases(prefix, rng, n):
+    """uploads of several clients served by ONE worker with their body chunks arriving alternately
+    (A1 B1 A2 B2 ...), then read back: every client gets exactly its own bytes"""
+    out = []
+    for k in range(n):
+        ops = [f"http POST av hyph=nil hyph={c} history b:{c}" for c in (1, 2, 3)]
+        def ch():
+            return "chunks:" + ",".join(str(rng.randint(1, 60)) for _ in range(rng.randint(2, 5)))
+        for rnd in range(rng.randint(1, 3)):
+            cs = rng.sample((1, 2, 3), rng.choice([2, 3]))
+            ops.append("ileave " + " || ".join(f"http POST av hyph=latest:{c} hyph={c} history {ch()}" for c in cs))
+            ops += [f"http GET gcv hyph=anc:{c}:1 hyph={c} absent e" for c in cs]
+            # every snapshot is for a version added just before, so each complete upload replaces
+            ops.append("ileave " + " || ".join(f"http POST as hyph=latest:{c} hyph={c} snapshot {ch()}" for c in cs))
+            ops += [f"http GET snap - hyph={c} absent e" for c in cs]
+        ops += [f"walk {c}" for c in (1, 2, 3)]
+        out.append(Case(f"{prefix}-ileave-{k}", ops, {"http": True}, mode="http"))
+    return out
+
+
 class C06(HttpProp):
     id = "C06"
     rule = ("uploads of every length in 1..2, 3800..4300 (row-local / overflow-page threshold of a 4096-byte page), "
@@ -610,6 +630,7 @@ class C06(HttpProp):
                         f"http GET snap - hyph={c} absent e"]
             ops += ["reopen", f"walk {c}", f"http GET snap - hyph={c} absent e"]
             out.append(Case(f"c06-len-{k // per}", ops, mode="http"))
+        out += interleaved_upload_cases("c06", rng, sizes(tier, 12, 100))
         # byte classes x sizes, one-byte chunkings
         classes = {"zeros": "0", "ff": "255", "digits": "49,50,51,52,53", "utf8": "195,169,226,130,172", "badutf8": "195,40,255,254",
                    "nul": "65,0,66,0,0", "quote": "39,34,92,0"}
